@@ -282,6 +282,72 @@ impl RecordSet {
     }
 }
 
+/// Detect the DBC version, parse the matching header and validate it against
+/// the size of the file
+///
+/// Returns the version, the header converted to the common [`DbcHeader`], the
+/// offset of the record data and the offset of the string block. All header
+/// fields are untrusted, so the record data and the string block they describe
+/// must lie inside the file before anything is sized from them.
+pub(crate) fn parse_layout<R: Read + Seek>(
+    reader: &mut R,
+) -> Result<(DbcVersion, DbcHeader, u64, u64)> {
+    // Detect the DBC version
+    let version = DbcVersion::detect(reader)?;
+
+    // Parse the header based on the version and get offsets
+    let (header, record_data_offset, string_block_offset) = match version {
+        DbcVersion::WDBC => {
+            let h = DbcHeader::parse(reader)?;
+            let record_offset = DbcHeader::SIZE as u64;
+            let string_offset = h.string_block_offset();
+            (h, record_offset, string_offset)
+        }
+        DbcVersion::WDB2 => {
+            let wdb2_header = Wdb2Header::parse(reader)?;
+            let record_offset = wdb2_header.record_data_offset();
+            let string_offset = wdb2_header.string_block_offset();
+            (wdb2_header.to_dbc_header(), record_offset, string_offset)
+        }
+        DbcVersion::WDB5 => {
+            let wdb5_header = Wdb5Header::parse(reader)?;
+            let record_offset = Wdb5Header::SIZE as u64;
+            let string_offset = wdb5_header.string_block_offset();
+            (wdb5_header.to_dbc_header(), record_offset, string_offset)
+        }
+        _ => {
+            return Err(Error::InvalidHeader(format!(
+                "Unsupported DBC version: {version:?}"
+            )));
+        }
+    };
+
+    if header.record_count > 0 && (header.record_size == 0 || header.field_count == 0) {
+        return Err(Error::InvalidHeader(format!(
+            "Record size ({}) and field count ({}) cannot be 0 if record count is greater than 0",
+            header.record_size, header.field_count
+        )));
+    }
+
+    // The string block is the last section: header, records and strings together
+    // must not be larger than the file
+    let file_size = reader.seek(SeekFrom::End(0))?;
+    let total_size = string_block_offset.checked_add(header.string_block_size as u64);
+    if total_size.is_none_or(|total_size| total_size > file_size) {
+        return Err(Error::InvalidHeader(format!(
+            "Header describes {} records of {} bytes at offset {} and a string block of {} bytes, \
+             but the file has only {} bytes",
+            header.record_count,
+            header.record_size,
+            record_data_offset,
+            header.string_block_size,
+            file_size
+        )));
+    }
+
+    Ok((version, header, record_data_offset, string_block_offset))
+}
+
 /// Parser for DBC files
 #[derive(Debug)]
 pub struct DbcParser {
@@ -302,35 +368,8 @@ pub struct DbcParser {
 impl DbcParser {
     /// Parse a DBC file from a reader
     pub fn parse<R: Read + Seek>(reader: &mut R) -> Result<Self> {
-        // Detect the DBC version
-        let version = DbcVersion::detect(reader)?;
-
-        // Parse the header based on the version and get offsets
-        let (header, record_data_offset, string_block_offset) = match version {
-            DbcVersion::WDBC => {
-                let h = DbcHeader::parse(reader)?;
-                let record_offset = DbcHeader::SIZE as u64;
-                let string_offset = h.string_block_offset();
-                (h, record_offset, string_offset)
-            }
-            DbcVersion::WDB2 => {
-                let wdb2_header = Wdb2Header::parse(reader)?;
-                let record_offset = wdb2_header.record_data_offset();
-                let string_offset = wdb2_header.string_block_offset();
-                (wdb2_header.to_dbc_header(), record_offset, string_offset)
-            }
-            DbcVersion::WDB5 => {
-                let wdb5_header = Wdb5Header::parse(reader)?;
-                let record_offset = Wdb5Header::SIZE as u64;
-                let string_offset = wdb5_header.string_block_offset();
-                (wdb5_header.to_dbc_header(), record_offset, string_offset)
-            }
-            _ => {
-                return Err(Error::InvalidHeader(format!(
-                    "Unsupported DBC version: {version:?}"
-                )));
-            }
-        };
+        // Parse the version-specific header and check it against the file size
+        let (version, header, record_data_offset, string_block_offset) = parse_layout(reader)?;
 
         // Seek to the beginning of the file
         reader.seek(SeekFrom::Start(0))?;
@@ -372,6 +411,8 @@ impl DbcParser {
         // Skip to the record data (uses version-specific offset)
         cursor.seek(SeekFrom::Start(self.record_data_offset))?;
 
+        // `parse` checked that record_count * record_size bytes are present, so the
+        // capacity is bounded by the size of the file
         let mut records = Vec::with_capacity(self.header.record_count as usize);
 
         for _ in 0..self.header.record_count {
